@@ -10,6 +10,7 @@ import (
 func TestMain(m *testing.M) {
 	code := m.Run()
 	vh.FlushStats()
+	vh.PrintSurvey()
 	os.Exit(code)
 }
 
